@@ -233,6 +233,18 @@ class Exprs:
         return ("call", c["key"], tuple(self.operand(a) for a in t["args"]), c.get("display", ""))
 
 
+def _params_only(t, depth=0):
+    if not isinstance(t, tuple) or depth > 20:
+        return False
+    if t[0] in ("param", "c"):
+        return True
+    if t[0] == "bin":
+        return _params_only(t[2], depth + 1) and _params_only(t[3], depth + 1)
+    if t[0] in ("un", "cast"):
+        return _params_only(t[2], depth + 1)
+    return False
+
+
 class PathEval:
     """A3: symbolic evaluation of one CFG path (list of block indices).  Locals take the tree of
     their last assignment on the path; writes through projections are remembered per place tree
@@ -354,6 +366,12 @@ class PathEval:
                 if cc is False:
                     self.infeasible = True
                 return
+            # the same by-value test taken both ways on one path: infeasible (only for conditions over parameters
+            # and constants: they cannot change between the two tests)
+            if cc in (("in", (0,)), ("notin", (0,))) and _params_only(d):
+                for (d0, c0, b0, t0) in self.conds:
+                    if d0 == d and c0 in (("in", (0,)), ("notin", (0,))) and c0 != cc:
+                        self.infeasible = True
             self.conds.append((d, cc, b, t.get("discr_ty")))
 
     infeasible = False
